@@ -16,6 +16,20 @@ import (
 
 // c07Base draws an environment whose values can be expressed as host data.
 func c07Base(g *ref.Gen) ([]string, map[string]*ref.V) {
+	n, _, v := c07BaseT(g)
+	return n, v
+}
+
+// c07Values draws new values of the given types.
+func c07Values(g *ref.Gen, names []string, types map[string]*ref.Ty) map[string]*ref.V {
+	vs := map[string]*ref.V{}
+	for _, n := range names {
+		vs[n] = cleanForHost(relayoutAs(g.Value(types[n], 2), types[n]))
+	}
+	return vs
+}
+
+func c07BaseT(g *ref.Gen) ([]string, map[string]*ref.Ty, map[string]*ref.V) {
 	oAB := ref.TObj(ref.F("a", ref.TNum), ref.F("b", ref.TStr))
 	types := map[string]*ref.Ty{
 		"n": ref.TNum, "s": ref.TStr, "b": ref.TBool, "t": ref.TTime, "xs": ref.TList(ref.TNum), "m": ref.TMap(ref.TStr, ref.TNum),
@@ -25,12 +39,16 @@ func c07Base(g *ref.Gen) ([]string, map[string]*ref.V) {
 		"opt":  ref.TObj(ref.F("bonus", ref.TMaybe(ref.TNum)), ref.F("tags", ref.TMaybe(ref.TList(ref.TStr)))),
 	}
 	names := []string{"n", "s", "b", "t", "xs", "m", "o", "os", "deep", "opt"}
-	vs := map[string]*ref.V{}
-	for _, n := range names {
-		v := g.Value(types[n], 2)
-		vs[n] = cleanForHost(relayoutAs(v, types[n]))
+	// now and then many more names (environment sizes around 16 / 32 / 64)
+	if g.R.Intn(4) == 0 {
+		extra := []int{6, 7, 8, 22, 23, 24, 54, 55, 56}[g.R.Intn(9)]
+		for i := 0; i < extra; i++ {
+			nm := fmt.Sprintf("f%02d", i)
+			names = append(names, nm)
+			types[nm] = []*ref.Ty{ref.TNum, ref.TStr, ref.TBool, ref.TList(ref.TNum)}[i%4]
+		}
 	}
-	return names, vs
+	return names, types, c07Values(g, names, types)
 }
 
 // cleanForHost removes what host data cannot carry identically (NaN keys etc.)
@@ -166,10 +184,13 @@ func runC07(c *run.Ctx) {
 		c.Case(id, func() {
 			r := c.Rng("envpair", i)
 			g := &ref.Gen{R: r, FT: funTable(user), Loc: time.Local, Opt: ref.GenOpt{MaxDepth: 3, PSugar: 0.5, UserFuns: true}}
-			names, vs := c07Base(g)
+			names, tys, vs := c07BaseT(g)
 			// the compile-time environment uses a random subset of the names
 			r.Shuffle(len(names), func(a, b int) { names[a], names[b] = names[b], names[a] })
 			cnames := append([]string(nil), names[:3+r.Intn(len(names)-3)]...)
+			if len(names) > 12 && r.Intn(2) == 0 {
+				cnames = append([]string(nil), names...) // every name, including the many extra ones
+			}
 			// program: references every compile-time name through tr
 			var parts []*ref.E
 			for _, nm := range cnames {
@@ -217,7 +238,7 @@ func runC07(c *run.Ctx) {
 			ft := funTable(user)
 			var runs []c07Run
 			fresh := func() ([]string, map[string]*ref.V) { // new values of the same types
-				_, v2 := c07Base(g)
+				v2 := c07Values(g, names, tys)
 				out := map[string]*ref.V{}
 				for _, nm := range names {
 					if ref.Eq(v2[nm].T, vs[nm].T) {
